@@ -389,25 +389,33 @@ def main():
         else:
             regenerate(log)
         module = cfg["module"]
-        lake_ok, lake_out = lake_build([module, "avro_driver"])
+        # further theorem modules that cannot be imported next to `module` (two lemma files declare
+        # the same names): {module: [theorems]}, built and audited on their own
+        extra_modules = cfg.get("extra_modules", {})
+        lake_ok, lake_out = lake_build([module] + list(extra_modules) + ["avro_driver"])
         if not lake_ok:
             # try to at least get the driver for the search
             unchecked.append(f"lake build {module} failed")
             lake_build(["avro_driver"])
             log.append(("lake", lake_out[-3000:]))
-        theorems = cfg["theorems"]
+        theorems = cfg["theorems"] + [t for ts in extra_modules.values() for t in ts]
         ax, problems = ({}, [])
         if lake_ok:
-            ax, problems = audit(prop, theorems, module)
+            ax, problems = audit(prop, cfg["theorems"], module)
+            for k, (m2, ts) in enumerate(sorted(extra_modules.items())):
+                ax2, problems2 = audit(f"{prop}_x{k}", ts, m2)
+                ax.update(ax2)
+                problems += problems2
             for p in problems:
                 unchecked.append(p)
         forb = grep_forbidden()
         for h in forb:
             unchecked.append("forbidden construct: " + h)
         if tier == "thorough" and lake_ok:
-            rc, out = sh(["lake", "env", "leanchecker", module], cwd=LEAN)
-            if rc != 0:
-                unchecked.append("leanchecker rejected " + module + ": " + out.decode(errors="replace")[-300:])
+            for m2 in [module] + sorted(extra_modules):
+                rc, out = sh(["lake", "env", "leanchecker", m2], cwd=LEAN)
+                if rc != 0:
+                    unchecked.append("leanchecker rejected " + m2 + ": " + out.decode(errors="replace")[-300:])
 
     discharged = sum(1 for t in theorems if ax.get(t) is not None and all(a in ALLOWED_AXIOMS for a in ax[t])) if lake_ok else 0
 
